@@ -3,6 +3,7 @@ import PdtVerif.Lemmas.CommandLineTimed
 import PdtVerif.Lemmas.CommandLineCosts
 import PdtVerif.Lemmas.CommandLineAudit
 import PdtVerif.Lemmas.CommandLineEos
+import PdtVerif.Lemmas.CommandLineSubset
 import PdtVerif.Properties.C11
 /-!
 # C17 — command-line conversions invert each other and ignore worker count
@@ -802,6 +803,192 @@ example (avail : List (Nat × Nat)) (n : Nat) :
     (by intro a b; simp; omega) avail (.shortestN n)
 
 end Subset
+
+/-! ## Subsetting a whole source tree: `dest` is the restriction of every sub-directory of `src`
+to the selected utterances OF `feat/` — for every tree, consistent or not -/
+section SubsetDir
+variable {σ α : Type} [DecidableEq σ] [DecidableEq α]
+
+/-- **C17_subset_dir** — the whole command (`subsetCmd`: listing of `feat/`, criterion, `basenames`,
+copy loop) on ANY source tree: files of utterances that exist in only some of `feat/`, `ali/`,
+`ref/`, names that do not match prefix / suffix, sub-directories the command does not know. When
+the selection has no duplicate (or with `--copy`) the command succeeds and `dest` is the
+restriction (`IsRestriction`) of the sub-directories `feat`, and `ali` / `ref` where they exist, to
+the selected utterances; every selected utterance is an utterance of `feat/` whatever the
+criterion; and for `--utt-list` / `--utt-list-file` the selected utterances are exactly the
+requested ones that `feat/` has. -/
+theorem C17_subset_dir (le : List α → List α → Bool) (p s : List α) (featSub : σ)
+    (otherSubs : List σ) (len : List α → Nat) (tree : List (σ × List α)) (c : Crit (List α))
+    (linkMode : Bool) (hs : (featSub :: otherSubs).Nodup)
+    (hn : (subsetSel le p s featSub len tree c).Nodup ∨ linkMode = false) :
+    (∃ d, subsetCmd le p s featSub otherSubs len tree c linkMode = .ok d ∧
+      IsRestriction p s (featSub :: otherSubs) tree (subsetSel le p s featSub len tree c) d) ∧
+    (∀ u ∈ subsetSel le p s featSub len tree c, u ∈ featIds p s featSub tree) ∧
+    (∀ l, c = .uttList l → ∀ u, u ∈ subsetSel le p s featSub len tree c ↔
+      (u ∈ l ∧ u ∈ featIds p s featSub tree)) := by
+  refine ⟨?_, subsetSel_subset le p s featSub len tree c, ?_⟩
+  · have hn' : ((subsetSel le p s featSub len tree c).map (fileName p s)).Nodup ∨ linkMode = false :=
+      hn.imp (fun h => h.map (fun a b hab => fileName_injective p s hab)) id
+    obtain ⟨d, h1, h2⟩ := C17_subset_copy_cmd linkMode (featSub :: otherSubs) tree _ hs hn'
+    refine ⟨d, h1, fun sub f => ?_⟩
+    rw [h2 (sub, f)]
+    simp only [List.mem_map, fileName]
+    constructor
+    · rintro ⟨a, b, u, hu, rfl⟩
+      exact ⟨a, b, u, hu, rfl⟩
+    · rintro ⟨a, b, u, hu, rfl⟩
+      exact ⟨a, b, u, hu, rfl⟩
+  · rintro l rfl u
+    unfold subsetSel
+    rw [mem_subsetSelect_list, subsetAvail_ids]
+
+/-- **C17_subset_dir_list** — `--utt-list` / `--utt-list-file` on any source tree (the headline
+form): with a duplicate-free request (or `--copy`) the command succeeds and a file is in `dest`
+exactly when it is a file of `src`, in `feat/` or an existing `ali/` / `ref/`, and is the file
+`prefix + u + suffix` of an utterance `u` that was requested AND is an utterance of `feat/`. -/
+theorem C17_subset_dir_list (le : List α → List α → Bool) (p s : List α) (featSub : σ)
+    (otherSubs : List σ) (len : List α → Nat) (tree : List (σ × List α)) (l : List (List α))
+    (linkMode : Bool) (hs : (featSub :: otherSubs).Nodup) (hn : l.Nodup ∨ linkMode = false) :
+    ∃ d, subsetCmd le p s featSub otherSubs len tree (.uttList l) linkMode = .ok d ∧
+      ∀ sub f, (sub, f) ∈ d ↔ ((sub, f) ∈ tree ∧ sub ∈ featSub :: otherSubs ∧
+        ∃ u, u ∈ l ∧ u ∈ featIds p s featSub tree ∧ f = fileName p s u) := by
+  have hn' : (subsetSel le p s featSub len tree (.uttList l)).Nodup ∨ linkMode = false :=
+    hn.imp (fun h => by unfold subsetSel subsetSelect; exact h.filter _) id
+  obtain ⟨⟨d, h1, h2⟩, _, h3⟩ := C17_subset_dir le p s featSub otherSubs len tree (.uttList l) linkMode hs hn'
+  refine ⟨d, h1, fun sub f => ?_⟩
+  rw [h2 sub f]
+  constructor
+  · rintro ⟨a, b, u, hu, rfl⟩
+    exact ⟨a, b, u, ((h3 l rfl u).1 hu).1, ((h3 l rfl u).1 hu).2, rfl⟩
+  · rintro ⟨a, b, u, hu1, hu2, rfl⟩
+    exact ⟨a, b, u, (h3 l rfl u).2 ⟨hu1, hu2⟩, rfl⟩
+
+/-- **C17_subset_dir_stray** — no hypothesis at all (any tree, any criterion, any copy mode, lists
+with duplicates): whenever the command succeeds, every file of `dest` is a file of `src` in a known
+sub-directory and is the file of a selected utterance of `feat/`; in particular the file of an
+utterance that `feat/` does not have is NEVER in `dest`, in no sub-directory — although `ali/` or
+`ref/` of `src` may well hold it. -/
+theorem C17_subset_dir_stray (le : List α → List α → Bool) (p s : List α) (featSub : σ)
+    (otherSubs : List σ) (len : List α → Nat) (tree : List (σ × List α)) (c : Crit (List α))
+    (linkMode : Bool) (d : List (σ × List α))
+    (h : subsetCmd le p s featSub otherSubs len tree c linkMode = .ok d) :
+    (∀ k ∈ d, k ∈ tree ∧ k.1 ∈ featSub :: otherSubs ∧
+      ∃ u ∈ featIds p s featSub tree, k.2 = fileName p s u) ∧
+    (∀ u, u ∉ featIds p s featSub tree → ∀ sub, (sub, fileName p s u) ∉ d) := by
+  have key : ∀ k ∈ d, k ∈ tree ∧ k.1 ∈ featSub :: otherSubs ∧
+      ∃ u ∈ featIds p s featSub tree, k.2 = fileName p s u := by
+    intro k hk
+    rcases copyRun_ok_subset linkMode [] _ d h k hk with h0 | h0
+    · cases h0
+    · obtain ⟨h1, h2, h3⟩ := (mem_copyTargets _ _ _ k).1 h0
+      obtain ⟨u, hu, hfu⟩ := List.mem_map.1 h3
+      exact ⟨h1, h2, u, subsetSel_subset le p s featSub len tree c u hu, hfu.symm⟩
+  refine ⟨key, fun u hu sub hmem => ?_⟩
+  obtain ⟨_, _, u', hu', he⟩ := key _ hmem
+  exact hu (fileName_injective p s he ▸ hu')
+
+/-- **C17_subset_dir_ids** — the same restriction read through the directory listing: when the
+selected names of `src` are not overlaps of prefix and suffix (`|prefix| + |suffix| ≤ |name|`, the
+hypothesis of `C17_names`), a file is in `dest` exactly when it is a file of `src` in a known
+sub-directory whose name is selected and whose utterance id (as `_DirectoryDataset` /
+`SpectDataSet` would list it) is a selected utterance; and `dest/feat` lists exactly the selected
+utterances — none is lost. -/
+theorem C17_subset_dir_ids (p s : List α) (featSub : σ) (otherSubs : List σ)
+    (tree : List (σ × List α)) (sel : List (List α)) (d : List (σ × List α))
+    (hd : IsRestriction p s (featSub :: otherSubs) tree sel d)
+    (hsel : ∀ u ∈ sel, u ∈ featIds p s featSub tree)
+    (hl : ∀ e ∈ tree, selects p s e.2 = true → p.length + s.length ≤ e.2.length) :
+    (∀ sub f, (sub, f) ∈ d ↔ ((sub, f) ∈ tree ∧ sub ∈ featSub :: otherSubs ∧
+      selects p s f = true ∧ uttOf p s f ∈ sel)) ∧
+    (∀ u, u ∈ featIds p s featSub d ↔ u ∈ sel) := by
+  have h1 : ∀ sub f, (sub, f) ∈ d ↔ ((sub, f) ∈ tree ∧ sub ∈ featSub :: otherSubs ∧
+      selects p s f = true ∧ uttOf p s f ∈ sel) := by
+    intro sub f
+    rw [hd sub f]
+    constructor
+    · rintro ⟨a, b, u, hu, rfl⟩
+      have e : uttOf p s (p ++ u ++ s) = u := uttOf_fileName p s u
+      exact ⟨a, b, selects_fileName p s u, e.symm ▸ hu⟩
+    · rintro ⟨a, b, hsf, hu⟩
+      exact ⟨a, b, uttOf p s f, hu, (fileName_uttOf p s f hsf (hl _ a hsf)).symm⟩
+  refine ⟨h1, fun u => ?_⟩
+  rw [mem_featIds]
+  constructor
+  · rintro ⟨f, hf, _, rfl⟩
+    exact ((h1 featSub f).1 hf).2.2.2
+  · intro hu
+    obtain ⟨f, hf, hsf, rfl⟩ := (mem_featIds p s featSub tree u).1 (hsel u hu)
+    exact ⟨f, (h1 featSub f).2 ⟨hf, List.mem_cons_self .., hsf, hu⟩, hsf, rfl⟩
+
+/-- **C17_subset_dir_nodup** — the side condition of `C17_subset_dir` holds on every real
+directory: distinct entries and no prefix/suffix overlap among the selected names of `feat/` give
+distinct utterance ids, hence a duplicate-free selection for every criterion (for `--utt-list`
+when the request itself has no duplicate). -/
+theorem C17_subset_dir_nodup (le : List α → List α → Bool) (p s : List α) (featSub : σ)
+    (len : List α → Nat) (tree : List (σ × List α)) (c : Crit (List α)) (ht : tree.Nodup)
+    (hl : ∀ e ∈ tree, e.1 = featSub → selects p s e.2 = true → p.length + s.length ≤ e.2.length)
+    (hc : ∀ l, c = .uttList l → l.Nodup) :
+    (subsetSel le p s featSub len tree c).Nodup := by
+  unfold subsetSel
+  refine subsetSelect_nodup le _ c ?_ hc
+  rw [subsetAvail_ids]
+  exact featIds_nodup p s featSub tree ht (fun f hf h => hl (featSub, f) hf rfl h)
+
+/-- An inconsistent tree, evaluated: prefix `p_`, suffix `.pt`; `feat/` has `a`, `b` and a name that
+does not match; `ali/` has `a` and the stray `z` (no feature file); `ref/` has `b`, `z`, an
+unmatched name and `c`; `hyp/` is a sub-directory the command does not know. Requesting
+`z, a, nowhere, b` extracts `a` and `b` only — from every sub-directory. -/
+example :
+    let n : String → List Char := fun u => fileName "p_".toList ".pt".toList u.toList
+    let tree : List (String × List Char) :=
+      [("feat", n "a"), ("feat", n "b"), ("feat", "notes".toList), ("ali", n "a"), ("ali", n "z"),
+       ("ref", n "b"), ("ref", n "z"), ("ref", "p_a.txt".toList), ("ref", n "c"), ("hyp", n "a")]
+    subsetCmd (fun a b => decide (a ≤ b)) "p_".toList ".pt".toList "feat" ["ali", "ref"]
+        (fun _ => 1) tree (.uttList ["z".toList, "a".toList, "nowhere".toList, "b".toList]) true
+      = .ok [("feat", n "a"), ("ali", n "a"), ("feat", n "b"), ("ref", n "b")] := by
+  decide
+
+/-- The hypotheses of `C17_subset_dir_list`, `C17_subset_dir_nodup` and `C17_subset_dir_ids` hold
+together on such a tree (a stray in `ali/`, a request for it and for an id that exists nowhere). -/
+example : ∃ d, subsetCmd (fun a b => decide (a ≤ b)) "p_".toList ".pt".toList "feat" ["ali"]
+      (fun _ => 1) [("feat", "p_a.pt".toList), ("ali", "p_a.pt".toList), ("ali", "p_z.pt".toList)]
+      (.uttList ["z".toList, "a".toList, "q".toList]) true = .ok d ∧
+    ∀ sub f, (sub, f) ∈ d ↔ ((sub, f) ∈ [("feat", "p_a.pt".toList), ("ali", "p_a.pt".toList),
+        ("ali", "p_z.pt".toList)] ∧ sub ∈ ["feat", "ali"] ∧
+      ∃ u, u ∈ ["z".toList, "a".toList, "q".toList] ∧
+        u ∈ featIds "p_".toList ".pt".toList "feat"
+          [("feat", "p_a.pt".toList), ("ali", "p_a.pt".toList), ("ali", "p_z.pt".toList)] ∧
+        f = fileName "p_".toList ".pt".toList u) :=
+  C17_subset_dir_list _ _ _ _ _ _ _ _ _ (by decide) (.inl (by decide))
+
+example : (subsetSel (fun a b => decide (a ≤ b)) "p_".toList ".pt".toList "feat" (fun _ => 1)
+    [("feat", "p_a.pt".toList), ("feat", "p_b.pt".toList), ("ali", "p_z.pt".toList)]
+    (.lastN 1)).Nodup :=
+  C17_subset_dir_nodup _ _ _ _ _ _ _ (by decide) (by decide) (by intro l h; cases h)
+
+/-- **C17_dataset_ids** — the utterances `chunk-torch-spect-data-dir` and
+`get-torch-spect-data-dir-info` walk (`SpectDataSet.find_utt_ids`, model `dataSetIds`) on any tree:
+exactly the utterances of `feat/` that every one of `ali/`, `ref/` which counts (exists and holds
+at least one selected name: `has_ali` / `has_ref`) lists as well; an utterance missing in one of
+them, or present only outside `feat/`, is not walked; a sub-directory without any selected name
+removes nothing. (Small: the content is that the model's filter is this intersection.) -/
+theorem C17_dataset_ids (p s : List α) (featSub : σ) (otherSubs : List σ)
+    (tree : List (σ × List α)) (u : List α) :
+    u ∈ dataSetIds p s featSub otherSubs tree ↔
+      (u ∈ featIds p s featSub tree ∧
+        ∀ sub ∈ otherSubs, (∃ f, (sub, f) ∈ tree ∧ selects p s f = true) → u ∈ featIds p s sub tree) :=
+  mem_dataSetIds p s featSub otherSubs tree u
+
+example : dataSetIds "".toList ".pt".toList "feat" ["ali", "ref"]
+    [("feat", "a.pt".toList), ("feat", "b.pt".toList), ("feat", "c.pt".toList), ("ali", "a.pt".toList),
+     ("ali", "z.pt".toList), ("ali", "c.pt".toList), ("ref", "c.pt".toList), ("ref", "a.pt".toList),
+     ("ref", "a.txt".toList), ("hyp", "b.pt".toList)] = ["a".toList, "c".toList] := by decide
+/-- An `ali/` with no selected name does not count: both utterances of `feat/` are walked. -/
+example : dataSetIds "".toList ".pt".toList "feat" ["ali", "ref"]
+    [("feat", "a.pt".toList), ("feat", "b.pt".toList), ("ali", "a.txt".toList)] =
+      ["a".toList, "b".toList] := by decide
+
+end SubsetDir
 
 /-! ## Transcripts -/
 section Transcripts
